@@ -32,6 +32,31 @@ fn main() {
     }
     let seed: u64 = std::env::var("VERIF_SEED").ok().and_then(|s| s.parse().ok()).unwrap_or(0);
     install_quiet_panic_hook();
+    if id == "probe" {
+        // check probe <text>: show wac tokens, wac verdict, reference verdicts
+        let text = rest.join(" ");
+        let text = if let Some(f) = text.strip_prefix('@') { std::fs::read_to_string(f).unwrap() } else { text };
+        println!("text: {text:?}");
+        match wac_parser::lexer::Lexer::new(&text) {
+            Ok(lexer) => {
+                for (t, span) in lexer {
+                    println!("  tok {:?} {:?} {:?}", t, span, &text[span.offset()..span.offset() + span.len()]);
+                }
+            }
+            Err(e) => println!("  lexer new error: {e:?}"),
+        }
+        match vcheck::wacutil::parse_tree(&text) {
+            Ok(t) => println!("wac: ACCEPT {}", vcheck::gen::wacsyn::normalize(&t)),
+            Err(e) => println!("wac: REJECT {e:?}"),
+        }
+        for (n, d) in [("documented", vcheck::oracle::gram::Dialect::DOCUMENTED), ("all-deviations", vcheck::oracle::gram::Dialect::all())] {
+            match vcheck::oracle::gram::recognise(&text, &d) {
+                Ok(t) => println!("ref[{n}]: ACCEPT {t}"),
+                Err(e) => println!("ref[{n}]: REJECT {e:?}"),
+            }
+        }
+        return;
+    }
     let code = match id.as_str() {
         "C12" => props::c12::run(tier, seed, replay.as_deref()),
         "C13" => props::c13::run(tier, seed, replay.as_deref()),
